@@ -439,7 +439,7 @@ def checkPruneRule (c : Case) : CaseResult := Id.run do
   let mut guarded := 0
   let mut last : Array String := #[]
   -- the `q` line (input) waiting for its `kept` line (what the constructor left)
-  let mut pending : Option (Nat × Array BPt) := none
+  let mut pending : Array (Nat × Array BPt) := #[]
   for l0 in c.lines do
     if l0.size == 0 then continue
     let l := l0.extract 1 l0.size
@@ -452,12 +452,12 @@ def checkPruneRule (c : Case) : CaseResult := Id.run do
       match nums? (l.extract 2 (2 + 4 * k)) with
       | none => return { verdict := .diverge s!"unparsable q line {l}" }
       | some v =>
-        pending := some (dim, (Array.range k).map fun i => ⟨v[4*i]!, v[4*i+1]!, v[4*i+2]!, v[4*i+3]!⟩)
+        pending := pending.push (dim, (Array.range k).map fun i => ⟨v[4*i]!, v[4*i+1]!, v[4*i+2]!, v[4*i+3]!⟩)
     else if l0[0]! == "kept" then
-      match pending with
+      match pending[0]? with
       | none => return { verdict := .diverge s!"kept line without q line {l}" }
       | some (dim, bp) =>
-        pending := none
+        pending := pending.extract 1 pending.size
         let k := bp.size
         let m := nat! (l[0]?.getD "0")
         let got := ((l.extract 1 (1 + m)).toList.map nat!)
